@@ -869,7 +869,10 @@ def model_quantize(model,
         }
         quantize_rnn(layer["config"]["backward_layer"],
                      backward_layer_quantizer_config)
-      layer["class_name"] = "QBidirectional"
+      # quantize_rnn leaves the wrapped layer alone when no quantizers are
+      # configured for it; the wrapper must then stay a Bidirectional too.
+      if layer_config["layer"]["class_name"].startswith("Q"):
+        layer["class_name"] = "QBidirectional"
 
     elif layer["class_name"] == "Activation":
       if prefer_qadaptiveactivation:  # Try to find QAdaptiveActivation first
